@@ -47,3 +47,10 @@ Proof. exact tick_end_advances. Qed.
 (* nothing but a tick ever strikes: the row turnover emits no strike *)
 Theorem C08_turnover_never_strikes : forall w f, obells (fst (start_next_row w f)) = obells w.
 Proof. exact obells_start_next_row. Qed.
+
+From Wh Require Import Parse Glue GlueP.
+From Coq Require Import ZArith QArith.
+
+(* "the bells assigned to the configured name": --name reaches the Bot unchanged; the console has no instance id *)
+Theorem C08_name_passed_on : forall c cfg, console_cfg c = Ok cfg -> bc_name cfg = cl_name c /\ bc_instance cfg = None.
+Proof. exact name_passed_on. Qed.
